@@ -5,24 +5,56 @@ From Coq Require Import Reals Lra.
 From Interval Require Import Tactic.
 Open Scope R_scope.
 
+(* a comparison is decided only when its operands contain no undecided `if` (innermost first) *)
+Ltac no_if t :=
+  lazymatch t with
+  | context [Rle_dec _ _] => fail
+  | context [Rlt_dec _ _] => fail
+  | context [Req_EM_T _ _] => fail
+  | _ => idtac
+  end.
+
 Ltac resolve_ifs :=
   repeat match goal with
   | |- context [Req_EM_T ?a ?b] =>
+      no_if a; no_if b;
       let Hn := fresh "Hif" in
       destruct (Req_EM_T a b) as [Hn|Hn];
       [ try (exfalso; revert Hn; apply Rlt_not_eq; interval with (i_prec 80));
         try (exfalso; revert Hn; apply Rgt_not_eq; interval with (i_prec 80))
       | try (exfalso; apply Hn; lra) ]
   | |- context [Rlt_dec ?a ?b] =>
+      no_if a; no_if b;
       let Hn := fresh "Hif" in
       destruct (Rlt_dec a b) as [Hn|Hn];
       [ try (exfalso; apply (Rlt_not_le _ _ Hn); interval with (i_prec 80))
       | try (exfalso; apply Hn; interval with (i_prec 80)) ]
   | |- context [Rle_dec ?a ?b] =>
+      no_if a; no_if b;
       let Hn := fresh "Hif" in
       destruct (Rle_dec a b) as [Hn|Hn];
       [ try (exfalso; apply (Rle_not_lt _ _ Hn); interval with (i_prec 80))
       | try (exfalso; apply Hn; interval with (i_prec 80)) ]
   end.
 
-Ltac corr_solve := unfold Rmin, Rmax; resolve_ifs; interval with (i_prec 90).
+(* min / max: decide innermost first which operand wins, without duplicating terms *)
+Ltac no_minmax t :=
+  lazymatch t with
+  | context [Rmin _ _] => fail
+  | context [Rmax _ _] => fail
+  | _ => idtac
+  end.
+
+Ltac minmax_solve :=
+  repeat match goal with
+  | |- context [Rmin ?a ?b] =>
+      no_minmax a; no_minmax b;
+      first [ rewrite (Rmin_left a b) by interval with (i_prec 80)
+            | rewrite (Rmin_right a b) by interval with (i_prec 80) ]
+  | |- context [Rmax ?a ?b] =>
+      no_minmax a; no_minmax b;
+      first [ rewrite (Rmax_left a b) by interval with (i_prec 80)
+            | rewrite (Rmax_right a b) by interval with (i_prec 80) ]
+  end.
+
+Ltac corr_solve := minmax_solve; unfold Rmin, Rmax; resolve_ifs; interval with (i_prec 90).
